@@ -15,9 +15,21 @@ void* __builtin_assume_aligned(const void* p, size_t a, ...) { return (void*)p; 
    access other threads may change every bit (other claimers clear markers, other threads abandon segments) */
 static void* rg_word; static int rg_budget; static size_t rg_last_prev; static int rg_rmw_count;
 static void rg_hit(size_t* p) { if (rg_budget > 0 && nd_bool()) { rg_budget--; *p = nd_size(); } }
-static size_t rgx_load(size_t* p) { if ((void*)p == rg_word) rg_hit(p); return *p; }
-static size_t rgx_and(size_t* p, size_t v) { if ((void*)p == rg_word) { rg_hit(p); rg_rmw_count++; } size_t o = *p; if ((void*)p == rg_word) rg_last_prev = o; *p = o & v; return o; }
-static size_t rgx_or(size_t* p, size_t v)  { if ((void*)p == rg_word) { rg_hit(p); rg_rmw_count++; } size_t o = *p; if ((void*)p == rg_word) rg_last_prev = o; *p = o | v; return o; }
+/* a second kind of interference (C18 purge race lemma): another thread that is freeing a block of the arena runs its three atomic steps
+   (arm the arena's purge timer if it is not armed; set the block's purge bit; release the block's in-use bit) at arbitrary points
+   between the atomic operations of the function under test */
+static bool sched_enabled; static void sched_step(void);
+static size_t rgx_load(size_t* p) { if (sched_enabled) sched_step(); if ((void*)p == rg_word) rg_hit(p); return *p; }
+static size_t rgx_and(size_t* p, size_t v) { if (sched_enabled) sched_step(); if ((void*)p == rg_word) { rg_hit(p); rg_rmw_count++; } size_t o = *p; if ((void*)p == rg_word) rg_last_prev = o; *p = o & v; return o; }
+static size_t rgx_or(size_t* p, size_t v)  { if (sched_enabled) sched_step(); if ((void*)p == rg_word) { rg_hit(p); rg_rmw_count++; } size_t o = *p; if ((void*)p == rg_word) rg_last_prev = o; *p = o | v; return o; }
+static inline int64_t rgx_loadi64(int64_t* p) { if (sched_enabled) sched_step(); return *p; }
+static inline bool rgx_casi64(int64_t* p, int64_t* e, int64_t d) { if (sched_enabled) sched_step(); return seq_casi64(p, e, d); }
+#undef mi_atomic_loadi64_relaxed
+#undef mi_atomic_loadi64_acquire
+#undef mi_atomic_casi64_strong_acq_rel
+#define mi_atomic_loadi64_relaxed(p)           rgx_loadi64((int64_t*)(p))
+#define mi_atomic_loadi64_acquire(p)           rgx_loadi64((int64_t*)(p))
+#define mi_atomic_casi64_strong_acq_rel(p,e,d) rgx_casi64((int64_t*)(p),(int64_t*)(e),(int64_t)(d))
 #undef mi_atomic_load_relaxed
 #undef mi_atomic_and_acq_rel
 #undef mi_atomic_or_acq_rel
@@ -403,7 +415,7 @@ void h_manage(void) {
 #endif
 
 /* ================================================================== C09: abandonment ==== */
-#if defined(HARNESS_h_abandon_bit) || defined(HARNESS_h_abandon_at) || defined(HARNESS_h_abandon_os)
+#if defined(HARNESS_h_abandon_bit) || defined(HARNESS_h_abandon_at) || defined(HARNESS_h_abandon_os) || defined(HARNESS_h_cursor_fields)
 static struct { mi_segment_t seg; } SG[3];
 static mi_subproc_t SP[2];
 static bool lock_held; static int lock_fail;
@@ -502,6 +514,79 @@ void h_abandon_os(void) {
     WITNESS("not listed");
 #endif
   }
+}
+#endif
+
+#ifdef HARNESS_h_purge_race
+/* C18 under concurrency: while one thread carries out the expired purges of an arena (mi_arena_try_purge), another thread frees a block
+   of the same arena (mi_arena_schedule_purge + release of the in-use bit, three atomic steps, interleaved arbitrarily).  Afterwards a
+   block that is scheduled for purging always has an armed timer (arena expiry != 0): otherwise no later non-forced activity would
+   ever purge it. */
+static int sched_state; static size_t sched_bit; static int64_t sched_expire; static bool sched_armed_it;
+#ifndef SCHED_ORDER
+#define SCHED_ORDER 0        /* 0: as mi_arena_schedule_purge does it (see its source order); the lemma also decides the other order, for the record */
+#endif
+static void sched_do(void) {
+  mi_arena_t* a = &AO[0].a;
+  if (sched_state == 0) { int64_t z = 0; if (seq_casi64((int64_t*)&a->purge_expire, &z, sched_expire)) { sched_armed_it = true; int64_t z2 = 0; seq_casi64((int64_t*)&mi_arenas_purge_expire, &z2, sched_expire); } sched_state = 1; }
+  else if (sched_state == 1) { A_PURGE(a) |= sched_bit; sched_state = 2; }
+  else if (sched_state == 2) { A_INUSE(a) &= ~sched_bit; sched_state = 3; }
+}
+/* schedule of the other thread: its three steps happen at driver-enumerated points (counted in atomic
+   operations of the function under test), so that the bitmap words stay concrete for the bit-scan loops */
+static int opn; static int posA;
+static void sched_step(void) {
+  opn++;
+  if (sched_state == 0 && opn >= posA) sched_do();
+  if (sched_state == 1 && opn >= POSB) sched_do();
+  if (sched_state == 2 && opn >= POSC) sched_do();
+}
+void h_purge_race(void) {
+  make_arena(0, false); mi_arena_count = 1;
+  mi_arena_t* a = &AO[0].a;
+  opt_purge_delay = 10; opt_purge_mult = 1;
+  now_ms = 1000;
+  a->purge_expire = (A_PURGE(a) != 0 ? 900 + (nd_u8() & 63) : 0);          /* invariant: armed iff something is scheduled; here already expired */
+  mi_arenas_purge_expire = a->purge_expire;
+  sched_bit = (size_t)1 << SCHEDBIT; ASSUME((A_PURGE(a) & sched_bit) == 0); A_INUSE(a) |= sched_bit;      /* the block the other thread is freeing: still in use by it, not scheduled */
+  sched_expire = now_ms + 10;
+  posA = POSA;                                                 /* program order of the freeing thread: timer, then bit, then in-use release (all three points enumerated by the driver) */
+  sched_enabled = true;
+  (void)mi_arena_try_purge(a, now_ms, false);
+  sched_enabled = false;
+  while (sched_state < 3) sched_do();                              /* the other thread finishes its free (loop h_purge_race.0) */
+  if (A_PURGE(a) != 0) { CHECK(a->purge_expire != 0, "C18: a block scheduled for purging always has an armed purge timer (else only a forced collect would ever purge it)"); }
+  WITNESS("concurrent free");
+}
+#endif
+
+#ifdef HARNESS_h_cursor_fields
+/* C12/C09: the cursor over abandoned segments (used by mi_abandoned_visit_blocks and by every reclaim) reaches every abandoned
+   segment of an arena whose abandoned bitmap has more than one field, each exactly once, whatever the bit positions are
+   (F0BITS / F1BITS: concrete words, driver enumerates).  Taking the segment at a bit is a recording stub (decided by C09.abandon_at). */
+static struct { mi_arena_t a; mi_bitmap_field_t more[12]; } CA;
+static uint8_t FAKESEG[128]; static size_t got[2]; static int n_got, n_dup_got;
+mi_segment_t* stub_clear_abandoned_at(mi_arena_t* arena, mi_subproc_t* subproc, mi_bitmap_index_t bitmap_idx) {
+  CHECK(arena == &CA.a && bitmap_idx < 128, "a bit of this arena");
+  size_t f = bitmap_idx / 64, b = bitmap_idx % 64;
+  if ((arena->blocks_abandoned[f] >> b) & 1) { arena->blocks_abandoned[f] &= ~((size_t)1 << b); if ((got[f] >> b) & 1) n_dup_got++; got[f] |= (size_t)1 << b; n_got++; return (mi_segment_t*)&FAKESEG[bitmap_idx]; }
+  return NULL; }
+void h_cursor_fields(void) {
+  mi_arena_t* a = &CA.a; a->id = 1; a->block_count = 128; a->field_count = 2;
+  mi_bitmap_field_t* base = &a->blocks_inuse[0];
+  a->blocks_dirty = base + 2; a->blocks_abandoned = base + 4; a->blocks_committed = base + 6; a->blocks_purge = base + 8;
+  a->blocks_abandoned[0] = F0BITS; a->blocks_abandoned[1] = F1BITS;
+  mi_arenas[0] = a; mi_arena_count = 1;
+  opt_visit_abandoned = nd_bool();
+  SPV.abandoned_count = (size_t)(__builtin_popcountll(F0BITS) + __builtin_popcountll(F1BITS)); SPV.abandoned_os_list_count = 0; SPV.abandoned_os_list = NULL;
+  mi_arena_field_cursor_t cur;
+  _mi_arena_field_cursor_init(NULL, &SPV, true, &cur);
+  for (int k = 0; k < 6; k++) { if (_mi_arena_segment_clear_abandoned_next(&cur) == NULL) break; }
+  _mi_arena_field_cursor_done(&cur);
+  CHECK(got[0] == (size_t)F0BITS && got[1] == (size_t)F1BITS, "C12/C09: the cursor reaches every abandoned segment of the arena, in every field of its bitmap");
+  CHECK(n_dup_got == 0, "each abandoned segment is taken once");
+  CHECK(!lock_held, "the visitor lock is released at the end of the walk");
+  WITNESS("end");
 }
 #endif
 
